@@ -380,12 +380,13 @@ def explained_by_single_residue_termini(ref, other):
         for x, y in zip(r['atoms'], o['atoms']):
             if x == y:
                 continue
-            if not single or len(x) != len(y) or x[:6] != y[:6] or len(x) < 7 or x[7:] != y[7:]:
+            # the terminal modification mappings set the particle type and the charge (martini22: Qd +1 / Qa -1; martini3: Q5 +-1)
+            if not single or len(x) != len(y) or len(x) < 7 or x[0] != y[0] or x[2:6] != y[2:6] or x[7:] != y[7:]:
                 return False, {}
             fx, fy = num(x[6]), num(y[6])
             if fx is None or fy is None or {fx, fy} != {1.0, -1.0}:
                 return False, {}
-            rows.append([n, x[4], x[6], y[6]])
+            rows.append([n, x[4], x[1], x[6], y[1], y[6]])
         for sname in set(r['sections']) | set(o['sections']):
             a = sorted((list(t), g) for t, g, _ in r['sections'].get(sname, []))
             c = sorted((list(t), g) for t, g, _ in o['sections'].get(sname, []))
